@@ -371,6 +371,36 @@ func c10Exec(c fw.Case) *fw.Result {
 			// few refs and versions so that ties on (kind, ref) are frequent
 			ts = append(ts, c10Triple{k, refs[r.Intn(len(refs))], vers[r.Intn(len(vers))]})
 		}
+		// input arrangement: a sort may shortcut on what its input looks like
+		arr := []string{"random", "sorted", "reversed", "history", "few-swaps", "by-version", "sorted-but-last"}[int(c.Int("arr"))%7]
+		switch arr {
+		case "sorted":
+			sort.SliceStable(ts, func(i, j int) bool { return c10Less(ts[i], ts[j]) })
+		case "reversed":
+			sort.SliceStable(ts, func(i, j int) bool { return c10Less(ts[j], ts[i]) })
+		case "history":
+			// in order by kind and ref (as a history file is), the versions of one feature
+			// in arbitrary order
+			sort.SliceStable(ts, func(i, j int) bool {
+				a, b := ts[i], ts[j]
+				a.ver, b.ver = 0, 0
+				return c10Less(a, b)
+			})
+		case "few-swaps":
+			sort.SliceStable(ts, func(i, j int) bool { return c10Less(ts[i], ts[j]) })
+			for k := 0; k < 1+len(ts)/50 && len(ts) > 1; k++ {
+				i := r.Intn(len(ts) - 1)
+				ts[i], ts[i+1] = ts[i+1], ts[i]
+			}
+		case "by-version":
+			sort.SliceStable(ts, func(i, j int) bool { return ts[i].ver < ts[j].ver })
+		case "sorted-but-last":
+			sort.SliceStable(ts, func(i, j int) bool { return c10Less(ts[i], ts[j]) })
+			if len(ts) > 1 {
+				ts[0], ts[len(ts)-1] = ts[len(ts)-1], ts[0]
+			}
+		}
+		res.Eval("sort-arrangement/" + arr)
 		eids := make(osm.ElementIDs, len(ts))
 		fids := make(osm.FeatureIDs, len(ts))
 		els := make(osm.Elements, len(ts))
@@ -583,7 +613,7 @@ func init() {
 		ID:    "C10",
 		Level: "exploration",
 		Rule: "sweep of (kind, ref, version): refs 0,1,2 and 2^j-1,2^j,2^j+1 for j=1..40 (<2^40) plus PRNG refs, versions at every byte/sign boundary plus PRNG versions, all seven kinds; " +
-			"order decided for all pairs by tuple-sorting and checking strict increase, plus explicit pairs; Sort helpers against an independent tuple sort; malformed strings from a fixed table and a mutation grammar (separators, letters, and 28 kinds of non-ASCII-digit characters substituted into or inserted around the numbers: digits of other scripts, other numeric runes, white space of every width, separators, exponents, NUL, broken UTF-8). " +
+			"order decided for all pairs by tuple-sorting and checking strict increase, plus explicit pairs; Sort helpers against an independent tuple sort on inputs in seven arrangements (random, sorted, reversed, history order with shuffled versions, a few adjacent swaps, by version, sorted but for the ends); malformed strings from a fixed table and a mutation grammar (separators, letters, and 28 kinds of non-ASCII-digit characters substituted into or inserted around the numbers: digits of other scripts, other numeric runes, white space of every width, separators, exponents, NUL, broken UTF-8). " +
 			"A signature is (id family, kind, bit length of ref, version byte class) or (sort size class) or (malformed class); distinct_nontrivial counts distinct signatures.",
 		Assumptions: []string{
 			"changeset, note, user and bounds object ids carry no version (their public constructors take none); version is compared as 0 for them, and bounds has the single ref 0",
@@ -611,7 +641,7 @@ func init() {
 				if i%20 == 13 {
 					n = int64(2048 + (i*37)%3000) // beyond any small-slice special case of a sort
 				}
-				cs = append(cs, fw.Case{Kind: "sort", Seed: gen.Sub(seed, "c10sort", i), P: map[string]int64{"n": n, "nrefs": 3, "nvers": 2}})
+				cs = append(cs, fw.Case{Kind: "sort", Seed: gen.Sub(seed, "c10sort", i), P: map[string]int64{"n": n, "nrefs": 3, "nvers": 2, "arr": int64(i / 2)}})
 			}
 			cs = append(cs, fw.Case{Kind: "reject", Seed: gen.Sub(seed, "c10rej", 0), P: map[string]int64{"nrefs": 10, "nvers": 5}})
 			return fw.Number(cs)
